@@ -167,3 +167,319 @@ Print Assumptions C02_history_guard.
 Print Assumptions C02_history_roundtrip.
 Print Assumptions C02_no_add_after_delete_never_reuses.
 Print Assumptions C02_history_example.
+
+(* ==================================================================================================================
+   Composition pass (X02).  The theorems above keep the operation layer abstract and carry the operation-level facts
+   as hypotheses; the ones below have none.
+
+   (1) C02 o C05.  enc / dec / ndp / vports / sports / has_order are instantiated with the concrete operations and
+       codec of model/CodecOps.v (model/ComposeOps.v: c_enc = <Op>._to_serial with the parent slot at 0, c_dec =
+       deserialize(), c_ndp = ops._num_dataflow_ports, the reader's contract read off the ENCODED operation as in
+       run/C02Run.v).  ndp_spec is proved for every operation; enc_dec_enc and ndp_dec_enc are C05's
+       op_roundtrip_all, which holds for the operations inside C05's domain (op_ok: the encoding returns and the
+       object is one its constructor can have built).  The C02 lemmas needed the two facts for ALL operations; they
+       are re-proved in proofs/SerialHugrOnP.v for "the operations occurring in h" (a generalisation in a new file,
+       not a subset type; the statements above are untouched).  Premise on the nodes: ops_ok_b = C05's op_ok.  (A Tag
+       whose tag names no variant has no signature; ops._num_dataflow_ports answers None for it since fix f60e9c0, as
+       the model does: it has no order port, no premise about it is needed.)
+       Depth 0 = no function-valued constants (payload type Empty_set); any depth = the tower of
+       model/ComposeDepth.v, where the payload of a function-valued constant one level up is a HUGR of
+       model/SerialHugr.v one level down and C05's payload hypothesis h_rt is this very theorem one level down.
+   (2) C01 -> C02 (-> C05).  model/ComposeBuilder.v: the store of the builder model seen as an API-level HUGR; the
+       builder model's document seen as a SerialHugr document.
+   The metadata hypotheses (md_is_nil md_nil = true; {} is the only empty dictionary) are not about operations and stay.
+   ================================================================================================================== *)
+From HV Require Import model.Types model.SerialTypes model.Codec model.CodecVals model.CodecOps
+  proofs.CodecOpsP proofs.CodecDocP proofs.CodecEqP proofs.SerialHugrOnP
+  model.ComposeOps proofs.ComposeOpsP model.ComposeDepth proofs.ComposeDepthP proofs.ComposeExamplesP.
+From HV Require model.Validity model.Builder spec.BuilderS spec.BuilderWFS proofs.BuilderTypeP model.ComposeBuilder
+  proofs.ComposeBuilderP proofs.ComposeBuilderOpsP.
+
+(* the three operation-level hypotheses of Section C02, discharged for the concrete operations (depth 0) *)
+Theorem C02_concrete_ops_hypotheses_discharged :
+  (forall (o : op E0) d, c_ndp E0 o d =
+      if c_has_order E0 E0 e0 o then Some (c_vports E0 E0 e0 o d + c_sports E0 E0 e0 o d) else None) /\
+  (forall o : op E0, OpOK E0 e0_ok o -> c_enc E0 E0 e0 (c_dec E0 E0 e0 (c_enc E0 E0 e0 o)) = c_enc E0 E0 e0 o) /\
+  (forall (o : op E0) d, OpOK E0 e0_ok o -> c_ndp E0 (c_dec E0 E0 e0 (c_enc E0 E0 e0 o)) d = c_ndp E0 o d) /\
+  (forall o : op E0, op_ok E0 e0_ok o = true -> OpOK E0 e0_ok o).
+Proof.
+  exact (conj (c_ndp_spec E0 E0 e0)
+        (conj (c_enc_dec_enc E0 E0 e0 e0 e0 e0_type e0_ok e0_rt)
+        (conj (c_ndp_dec_enc E0 E0 e0 e0 e0 e0_type e0_ok e0_rt) (op_ok_OpOK E0 e0_ok)))).
+Qed.
+
+(* C02 o C05, depth 0: every HUGR over C05's operations (no function-valued constants) inside the guard whose nodes
+   carry operations of C05's domain serializes, the document loads, the loaded HUGR serializes to the same document
+   and is Iso -- NO hypothesis about operations *)
+Theorem C02_roundtrip_concrete_ops :
+  forall (md : Type) (md_nil : md) (md_is_nil : md -> bool),
+    md_is_nil md_nil = true -> (forall m, md_is_nil m = true -> m = md_nil) ->
+  forall h : hugr (op E0) md,
+    guard_b (c_vports E0 E0 e0) (c_sports E0 E0 e0) (c_has_order E0 E0 e0) h = true ->
+    ops_ok_b md e0_ok h = true ->
+    exists s h', to_serial (c_enc E0 E0 e0) (c_ndp E0) md_is_nil h = Some s /\
+                 from_serial (c_dec E0 E0 e0) (c_ndp E0) md_nil s = Some h' /\
+                 to_serial (c_enc E0 E0 e0) (c_ndp E0) md_is_nil h' = Some s /\
+                 Iso (c_enc E0 E0 e0) h h' /\
+                 (* and each operation comes back as its C05 normal form, attribute by attribute *)
+                 (forall i nd, get_node h i = Some nd ->
+                    exists nd', get_node h' (rank h i) = Some nd' /\ n_op nd' = op_nf E0 e0 (n_op nd)).
+Proof.
+  exact (fun md md_nil md_is_nil H1 H2 h G A =>
+           roundtrip_concrete E0 E0 e0 e0 e0 e0_type e0_ok e0_rt md md_nil md_is_nil H1 H2 h G (ops_ok_OpsIn E0 md e0_ok h A)).
+Qed.
+
+(* the nodes of that document are what `self[node]._to_serial(Node(rekey[parent]))` returns: C05's op_to_serial of the
+   node's operation with the renumbered parent (the root: itself) in the parent field; keeping the parent beside a
+   parent-less encoding (SerialHugr.snode) loses nothing *)
+Theorem C02_concrete_document_nodes :
+  forall (md : Type) (md_nil : md) (md_is_nil : md -> bool) (h : hugr (op E0) md) s,
+    guard_b (c_vports E0 E0 e0) (c_sports E0 E0 e0) (c_has_order E0 E0 e0) h = true ->
+    to_serial (c_enc E0 E0 e0) (c_ndp E0) md_is_nil h = Some s ->
+    forall k i, nth_error (lives h) k = Some i ->
+      exists nd, get_node h i = Some nd /\
+        option_map (sop_of_snode E0) (nth_error (s_nodes s) k) =
+          Some (op_to_serial E0 E0 e0 (n_op nd) (N.of_nat (rank h (match n_parent nd with Some p => p | None => i end)))).
+Proof. exact (fun md md_nil md_is_nil => concrete_doc_nodes E0 E0 e0 md md_nil md_is_nil). Qed.
+
+(* the C03 theorems with their hypothesis discharged (ndp_spec holds for every concrete operation, at every depth):
+   serialization of a guarded HUGR over C05's operations is total, the document is index-sane, and every edge is the
+   link renumbered and addressed by the reader's contract of the ENCODED operations.  (Stated here because
+   props/C03.v is being edited by another agent.) *)
+Theorem C02_concrete_ops_wire_format :
+  forall (H SH : Type) (h_enc : H -> SH) (md : Type) (md_nil : md) (md_is_nil : md -> bool) (h : hugr (op H) md),
+    guard_b (c_vports H SH h_enc) (c_sports H SH h_enc) (c_has_order H SH h_enc) h = true ->
+    exists s, to_serial (c_enc H SH h_enc) (c_ndp H) md_is_nil h = Some s /\
+      rank h (h_root h) = 0 /\ IndexSane s /\
+      s_edges s = map (expected_edge (c_vports H SH h_enc) (c_sports H SH h_enc) h) (h_links h).
+Proof. exact concrete_wire_format. Qed.
+
+(* C02 o C05 at ANY nesting depth n of function-valued constants (HT md n = the HUGRs embedded in the constants:
+   Empty_set at 0, HUGRs over operations of depth n-1 otherwise; okT = this theorem's own premises on the embedded
+   HUGRs, as a boolean, plus a root with an inner signature) *)
+Theorem C02_roundtrip_concrete_ops_any_depth :
+  forall (md : Type) (md_nil : md) (md_is_nil : md -> bool),
+    md_is_nil md_nil = true -> (forall m, md_is_nil m = true -> m = md_nil) ->
+  forall (n : nat) (h : hugr (op (HT md n)) md),
+    guardT md md_is_nil n h = true -> ops_ok_b md (okT md md_is_nil n) h = true ->
+    exists s h', to_serial (c_enc (HT md n) (ST md n) (encT md md_is_nil n)) (c_ndp (HT md n)) md_is_nil h = Some s /\
+                 from_serial (c_dec (HT md n) (ST md n) (decT md md_nil n)) (c_ndp (HT md n)) md_nil s = Some h' /\
+                 to_serial (c_enc (HT md n) (ST md n) (encT md md_is_nil n)) (c_ndp (HT md n)) md_is_nil h' = Some s /\
+                 Iso (c_enc (HT md n) (ST md n) (encT md md_is_nil n)) h h' /\
+                 (forall i nd, get_node h i = Some nd ->
+                    exists nd', get_node h' (rank h i) = Some nd' /\
+                                n_op nd' = op_nf (HT md n) (nfT md md_nil md_is_nil n) (n_op nd)).
+Proof. exact roundtrip_any_depth. Qed.
+
+(* the same with metadata as the harness interns it (canonical JSON text -> N, 0 = {}): no hypothesis of any kind *)
+Theorem C02_roundtrip_concrete_ops_closed :
+  forall (n : nat) (h : hugr (op (HT N n)) N),
+    guardT N is0 n h = true -> ops_ok_b N (okT N is0 n) h = true ->
+    exists s h', to_serial (c_enc (HT N n) (ST N n) (encT N is0 n)) (c_ndp (HT N n)) is0 h = Some s /\
+                 from_serial (c_dec (HT N n) (ST N n) (decT N 0%N n)) (c_ndp (HT N n)) 0%N s = Some h' /\
+                 to_serial (c_enc (HT N n) (ST N n) (encT N is0 n)) (c_ndp (HT N n)) is0 h' = Some s /\
+                 Iso (c_enc (HT N n) (ST N n) (encT N is0 n)) h h' /\
+                 (forall i nd, get_node h i = Some nd ->
+                    exists nd', get_node h' (rank h i) = Some nd' /\
+                                n_op nd' = op_nf (HT N n) (nfT N 0%N is0 n) (n_op nd)).
+Proof. exact (roundtrip_any_depth N 0%N is0 is0_nil is0_unique). Qed.
+
+(* non-vacuity, depth 0: Module > FuncDecl, FuncDefn > Input, Output, Const Some(true), LoadConst, Const true, LoadConst,
+   Call (function edge on the static port), DFG > Input, Output, Tag; a hole at index 3, metadata, an order link *)
+Example C02_concrete_ops_example :
+  (guard0 ex0 = true /\ ops_ok_b N e0_ok ex0 = true) /\
+  exists s h', to_s0 ex0 = Some s /\ from_s0 s = Some h' /\ to_s0 h' = Some s /\
+    length (s_nodes s) = 14 /\
+    nth_error (s_edges s) 3 = Some ((1, Some 0), (9, Some 1)) /\ nth_error (s_edges s) 9 = Some ((6, Some 1), (10, Some 1)) /\
+    nth_error (s_nodes s) 5 = Some {| s_op := c_enc E0 E0 e0 (OConst (VSum 1%N topt [VSum 1%N tbool []])); s_parent := 2 |} /\
+    h_links h' = map (rename_link (rank ex0)) (h_links ex0) /\
+    nth_error (h_links h') 9 = Some ((6, AOrder), (10, AOrder)).
+Proof. exact (conj ex0_premises ex0_document). Qed.
+(* a Tag whose tag names no variant (no signature: ops._num_dataflow_ports answers None since fix f60e9c0, as the model
+   does) is covered: it has no order port, a numbered link on it round-trips *)
+Example C02_tag_without_variant_example :
+  guard0 ex_tag = true /\ ops_ok_b N e0_ok ex_tag = true /\
+  tag_ok E0 (OTag 5%N (TSum [[tbool]])) = false /\ c_ndp E0 (OTag 5%N (TSum [[tbool]])) DIn = None /\
+  exists s h', to_s0 ex_tag = Some s /\ from_s0 s = Some h' /\ to_s0 h' = Some s /\ h_links h' = h_links ex_tag.
+Proof. exact ex_tag_roundtrip. Qed.
+(* non-vacuity, depth 1: a DFG loading a function-valued constant whose body is a 5-node HUGR with a constant *)
+Example C02_function_constant_example :
+  (okT N is0 1 body1 = true /\ guardT N is0 1 ex1 = true /\ ops_ok_b N (okT N is0 1) ex1 = true) /\
+  exists s, to_serial (c_enc (HT N 1) (ST N 1) (encT N is0 1)) (c_ndp (HT N 1)) is0 ex1 = Some s /\
+    length (s_nodes s) = 5 /\
+    exists sb, option_map s_op (nth_error (s_nodes s) 3) = Some (SConst 0%N (SVFunction sb)) /\
+               length (s_nodes sb) = 5 /\ length (s_edges sb) = 3.
+Proof. exact (conj ex1_premises ex1_document). Qed.
+
+(* ---- C01 -> C02.  bview A f pc st: the store st of the builder model as an API-level HUGR, operations translated by
+   f, recorded port counts from an arbitrary pc.  vid = the identity: the builder's operation literal is its own encoded
+   form (Builder.to_serial keeps it). ---- *)
+Import model.Validity model.Builder spec.BuilderS spec.BuilderWFS proofs.BuilderTypeP model.ComposeBuilder proofs.ComposeBuilderP
+  proofs.ComposeBuilderOpsP.
+
+(* ANY program of the modelled builder language that runs leaves a hierarchy consistent with index order *)
+Theorem C02_builder_index_ordered : forall pc tys p st,
+  exec_prog tys p = Ok st -> index_ordered_b (bview vop vid pc st) = true.
+Proof. exact builder_index_ordered. Qed.
+(* ... and, when well typed, links only on ports the operations have: the whole guard *)
+Theorem C02_builder_guard : forall pc tys p st,
+  wt_prog tys p = true -> exec_prog tys p = Ok st -> guard_b v_vports v_sports v_has_order (bview vop vid pc st) = true.
+Proof. exact builder_guard. Qed.
+(* the two models of Hugr._to_serial agree: SerialHugr.to_serial on the view of the store is the document
+   Builder.to_serial produces (doc_of_graph: the same nodes and edges, N -> nat, vnode -> snode, no metadata) *)
+Theorem C02_builder_documents_agree : forall pc tys p st g,
+  wt_prog tys p = true -> exec_prog tys p = Ok st -> run tys p = Ok g ->
+  SerialHugr.to_serial vid v_ndp unit_is_nil (bview vop vid pc st) = Some (doc_of_graph vop vid vop vid g).
+Proof. exact builder_documents_agree. Qed.
+(* every well-typed program of the modelled builder language that runs yields a HUGR whose document loads back to an
+   isomorphic HUGR and is a fixed point *)
+Theorem C02_builder_programs_roundtrip : forall pc tys p g,
+  wt_prog tys p = true -> run tys p = Ok g ->
+  exists st h', exec_prog tys p = Ok st /\
+    guard_b v_vports v_sports v_has_order (bview vop vid pc st) = true /\
+    SerialHugr.to_serial vid v_ndp unit_is_nil (bview vop vid pc st) = Some (doc_of_graph vop vid vop vid g) /\
+    SerialHugr.from_serial vid v_ndp tt (doc_of_graph vop vid vop vid g) = Some h' /\
+    SerialHugr.to_serial vid v_ndp unit_is_nil h' = Some (doc_of_graph vop vid vop vid g) /\
+    Iso vid (bview vop vid pc st) h'.
+Proof. exact builder_roundtrip. Qed.
+(* the same end to end through C05's concrete codec: the builder's operation literals concretised into the operations
+   of model/CodecOps.v by any type table tyc and name nm (extension operations as opaque Custom operations); the only
+   premise besides wt_prog / run is that the concretised constants are inside C05's domain *)
+Theorem C02_builder_programs_roundtrip_concrete_ops : forall tyc nm pc tys p g,
+  wt_prog tys p = true -> run tys p = Ok g ->
+  exists st, exec_prog tys p = Ok st /\
+    (ConstsOK E0 tyc nm e0_ok st ->
+     guard_b (c_vports E0 E0 e0) (c_sports E0 E0 e0) (c_has_order E0 E0 e0) (bview (op E0) (conc E0 tyc nm) pc st) = true /\
+     ops_ok_b unit e0_ok (bview (op E0) (conc E0 tyc nm) pc st) = true /\
+     exists h', SerialHugr.to_serial (c_enc E0 E0 e0) (c_ndp E0) unit_is_nil (bview (op E0) (conc E0 tyc nm) pc st) =
+                  Some (doc_of_graph (op E0) (conc E0 tyc nm) (sop E0) (c_enc E0 E0 e0) g) /\
+                SerialHugr.from_serial (c_dec E0 E0 e0) (c_ndp E0) tt (doc_of_graph (op E0) (conc E0 tyc nm) (sop E0) (c_enc E0 E0 e0) g) = Some h' /\
+                SerialHugr.to_serial (c_enc E0 E0 e0) (c_ndp E0) unit_is_nil h' =
+                  Some (doc_of_graph (op E0) (conc E0 tyc nm) (sop E0) (c_enc E0 E0 e0) g) /\
+                Iso (c_enc E0 E0 e0) (bview (op E0) (conc E0 tyc nm) pc st) h').
+Proof. exact builder_roundtrip_concrete. Qed.
+(* the C03 corollary (stated here, not in props/C03.v, which another agent is editing): the document a well-typed
+   builder program serialises is index-sane and port-addressed (C03_serial_index_sane / C03_serial_port_addressing
+   applied to the view) *)
+Theorem C02_builder_documents_wire_format : forall pc tys p g,
+  wt_prog tys p = true -> run tys p = Ok g ->
+  exists st, exec_prog tys p = Ok st /\ IndexSane (doc_of_graph vop vid vop vid g) /\
+    SerialHugr.s_edges (doc_of_graph vop vid vop vid g) =
+      map (expected_edge v_vports v_sports (bview vop vid pc st)) (h_links (bview vop vid pc st)).
+Proof. exact builder_wire_format. Qed.
+(* non-vacuity: the 13-node program of C01_wf_example (Ext wire + its order edge, constant at the root, partial
+   operations, Tag, linear value) satisfies every premise, also after concretisation *)
+Example C02_builder_example : wt_prog ex2_tys ex2_prog = true /\
+  exists g st, run ex2_tys ex2_prog = Ok g /\ exec_prog ex2_tys ex2_prog = Ok st /\
+    ConstsOK E0 ex_tyc 7%N e0_ok st /\
+    existsb (fun e => port_link e && negb (optN_eqb (anc_sib st (e_src e) (e_dst e)) (Some (e_dst e)))) (s_links st) = true /\
+    length (SerialHugr.s_nodes (doc_of_graph (op E0) (conc E0 ex_tyc 7%N) (sop E0) (c_enc E0 E0 e0) g)) = 13 /\
+    guard_b (c_vports E0 E0 e0) (c_sports E0 E0 e0) (c_has_order E0 E0 e0) (bview (op E0) (conc E0 ex_tyc 7%N) ex_pc st) = true.
+Proof. exact ex2_end_to_end. Qed.
+
+(* ---- histories, composed.  (a) over C05's concrete operations at any nesting depth n: Hugr(o), then any list of
+   public mutator calls; premises on the calls only (hist_ok, hist_on_ports as above; every operation handed to Hugr /
+   add_node / add_const / insert_hugr inside C05's domain: cop_ok_b = op_ok). ---- *)
+From HV Require proofs.ComposeHistP proofs.ComposeHistOpsP proofs.ComposeReplayP proofs.ComposeBuilderHistP.
+Import proofs.ComposeHistP proofs.ComposeHistOpsP.
+Theorem C02_history_roundtrip_concrete_ops :
+  forall (md : Type) (md_nil : md) (md_is_nil : md -> bool),
+    md_is_nil md_nil = true -> (forall m, md_is_nil m = true -> m = md_nil) ->
+  forall (n : nat) (o : op (HT md n)) (m : md) (cs : list (hcmd (op (HT md n)) md)),
+    hist_ok (init o m) cs = true ->
+    hist_on_ports (vportsT md md_is_nil n) (sportsT md md_is_nil n) (has_orderT md md_is_nil n) (init o m) cs = true ->
+    cop_ok_b (HT md n) (okT md md_is_nil n) o = true ->
+    Forall (cmd_ops (fun o' => cop_ok_b (HT md n) (okT md md_is_nil n) o' = true)) cs ->
+    all_return (init o m) cs = true /\
+    exists s h', SerialHugr.to_serial (c_enc (HT md n) (ST md n) (encT md md_is_nil n)) (c_ndp (HT md n)) md_is_nil (view (hrun (init o m) cs)) = Some s /\
+                 SerialHugr.from_serial (c_dec (HT md n) (ST md n) (decT md md_nil n)) (c_ndp (HT md n)) md_nil s = Some h' /\
+                 SerialHugr.to_serial (c_enc (HT md n) (ST md n) (encT md md_is_nil n)) (c_ndp (HT md n)) md_is_nil h' = Some s /\
+                 Iso (c_enc (HT md n) (ST md n) (encT md md_is_nil n)) (view (hrun (init o m) cs)) h'.
+Proof. exact history_roundtrip_concrete. Qed.
+
+(* (b) the guard is an invariant of such histories from ANY state of the store model that satisfies C04's invariant
+   and whose view is inside the guard -- not only from Hugr(root_op) *)
+Theorem C02_history_guard_from_any_state :
+  forall (Op Meta : Type) (vports sports : Op -> dir -> nat) (has_order : Op -> bool)
+         (h0 : Graph.hugr Op Meta) (cs : list (hcmd Op Meta)),
+    Inv h0 -> guard_b vports sports has_order (view h0) = true ->
+    hist_ok h0 cs = true -> hist_on_ports vports sports has_order h0 cs = true ->
+    all_return h0 cs = true /\ Inv (hrun h0 cs) /\ guard_b vports sports has_order (view (hrun h0 cs)) = true.
+Proof. exact (@hrun_guard). Qed.
+
+(* (c) C01 o C04 o C02: "all HUGRs reachable by builder programs followed by arbitrary add/delete/insert mutation
+   histories".  replay vop vid st is the state of the C04 store model reached by Hugr(root_op), add_node for every
+   further node of the builder's store st in index order and add_link for every link in order; it satisfies C04's
+   invariant, has no freed index pending, and its public view IS the builder's view (recorded port counts: pc_of).
+   From there: any history without index reuse whose link calls name ports the operations have. *)
+Import proofs.ComposeReplayP proofs.ComposeBuilderHistP.
+Theorem C02_builder_store_is_reachable : forall (A : Type) (f : vop -> A) st,
+  BuilderP.Inv st ->
+  Inv (replay A f st) /\ free (replay A f st) = [] /\ view (replay A f st) = bview A f (pc_of A (replay A f st)) st.
+Proof. exact replay_view. Qed.
+Theorem C02_builder_then_history_roundtrip : forall tys p st (cs : list (hcmd vop unit)),
+  wt_prog tys p = true -> exec_prog tys p = Builder.Ok st ->
+  (Inv (replay vop vid st) /\ free (replay vop vid st) = [] /\
+   view (replay vop vid st) = bview vop vid (pc_of vop (replay vop vid st)) st) /\
+  (hist_ok (replay vop vid st) cs = true -> hist_on_ports v_vports v_sports v_has_order (replay vop vid st) cs = true ->
+   all_return (replay vop vid st) cs = true /\
+   exists s h', SerialHugr.to_serial vid v_ndp unit_is_nil (view (hrun (replay vop vid st) cs)) = Some s /\
+                SerialHugr.from_serial vid v_ndp tt s = Some h' /\ SerialHugr.to_serial vid v_ndp unit_is_nil h' = Some s /\
+                Iso vid (view (hrun (replay vop vid st) cs)) h').
+Proof. exact builder_then_history_total. Qed.
+(* the syntactic form of the no-reuse premise after a builder program *)
+Theorem C02_builder_then_history_no_add_after_delete : forall tys p st (cs : list (hcmd vop unit)),
+  exec_prog tys p = Builder.Ok st ->
+  hist_in_guard (replay vop vid st) cs = true -> no_add_after_delete cs = true -> hist_ok (replay vop vid st) cs = true.
+Proof. exact builder_then_history_syntactic. Qed.
+(* ... and through C05's concrete codec for any concretisation of the builder's operation literals *)
+Theorem C02_builder_then_history_roundtrip_concrete_ops : forall tyc nm tys p st (cs : list (hcmd (op E0) unit)),
+  wt_prog tys p = true -> exec_prog tys p = Builder.Ok st -> ConstsOK E0 tyc nm e0_ok st ->
+  (Inv (replay (op E0) (conc E0 tyc nm) st) /\ free (replay (op E0) (conc E0 tyc nm) st) = [] /\
+   view (replay (op E0) (conc E0 tyc nm) st) =
+     bview (op E0) (conc E0 tyc nm) (pc_of (op E0) (replay (op E0) (conc E0 tyc nm) st)) st) /\
+  (hist_ok (replay (op E0) (conc E0 tyc nm) st) cs = true ->
+   hist_on_ports (c_vports E0 E0 e0) (c_sports E0 E0 e0) (c_has_order E0 E0 e0) (replay (op E0) (conc E0 tyc nm) st) cs = true ->
+   Forall (cmd_ops OK0) cs ->
+   all_return (replay (op E0) (conc E0 tyc nm) st) cs = true /\
+   exists s h', SerialHugr.to_serial (c_enc E0 E0 e0) (c_ndp E0) unit_is_nil (view (hrun (replay (op E0) (conc E0 tyc nm) st) cs)) = Some s /\
+                SerialHugr.from_serial (c_dec E0 E0 e0) (c_ndp E0) tt s = Some h' /\
+                SerialHugr.to_serial (c_enc E0 E0 e0) (c_ndp E0) unit_is_nil h' = Some s /\
+                Iso (c_enc E0 E0 e0) (view (hrun (replay (op E0) (conc E0 tyc nm) st) cs)) h').
+Proof. exact builder_then_history_concrete_total. Qed.
+(* non-vacuity: the 13-node program, then add a leaf under the nested DFG, link, order link, metadata, delete the link, add
+   it again, delete the node *)
+Example C02_builder_then_history_example :
+  wt_prog ex2_tys ex2_prog = true /\
+  exec_prog ex2_tys ex2_prog = Builder.Ok BuilderHistWitness.st /\
+  hist_ok BuilderHistWitness.h0 BuilderHistWitness.cs = true /\
+  hist_on_ports v_vports v_sports v_has_order BuilderHistWitness.h0 BuilderHistWitness.cs = true /\
+  no_add_after_delete BuilderHistWitness.cs = true /\
+  length (h_nodes (view (hrun BuilderHistWitness.h0 BuilderHistWitness.cs))) = 14 /\
+  is_live (view (hrun BuilderHistWitness.h0 BuilderHistWitness.cs)) 13 = false /\
+  length (h_links (view BuilderHistWitness.h0)) = length (h_links (view (hrun BuilderHistWitness.h0 BuilderHistWitness.cs))).
+Proof. exact builder_history_example. Qed.
+
+Print Assumptions C02_concrete_ops_hypotheses_discharged.
+Print Assumptions C02_roundtrip_concrete_ops.
+Print Assumptions C02_concrete_document_nodes.
+Print Assumptions C02_concrete_ops_wire_format.
+Print Assumptions C02_roundtrip_concrete_ops_any_depth.
+Print Assumptions C02_roundtrip_concrete_ops_closed.
+Print Assumptions C02_concrete_ops_example.
+Print Assumptions C02_tag_without_variant_example.
+Print Assumptions C02_function_constant_example.
+Print Assumptions C02_builder_index_ordered.
+Print Assumptions C02_builder_guard.
+Print Assumptions C02_builder_documents_agree.
+Print Assumptions C02_builder_programs_roundtrip.
+Print Assumptions C02_builder_programs_roundtrip_concrete_ops.
+Print Assumptions C02_builder_documents_wire_format.
+Print Assumptions C02_builder_example.
+Print Assumptions C02_history_roundtrip_concrete_ops.
+Print Assumptions C02_history_guard_from_any_state.
+Print Assumptions C02_builder_store_is_reachable.
+Print Assumptions C02_builder_then_history_roundtrip.
+Print Assumptions C02_builder_then_history_no_add_after_delete.
+Print Assumptions C02_builder_then_history_roundtrip_concrete_ops.
+Print Assumptions C02_builder_then_history_example.
